@@ -184,6 +184,10 @@ def one(ctx, rng, k, prop="C14"):
     g = gensolv.SolvGen(rng, ext=ext).build()
     text = g.text()
     opts = gensolv.option_subset(rng, k + ctx.shard * 1000, g.affine)
+    if getattr(g, "late_alias", False) and rng.random() < 0.6:
+        # the options under which the late alias is found by a second pass
+        opts.update({"detect_aliases": True, "eliminate_constant_assignments": True, "replace_constant_values": True,
+                     "iterative_simplification": True})
     on = [o for o in gensolv.OPTIONS if opts.get(o)]
     deco = any(t.split(":")[0] in ("alias", "constant-assignment", "eliminable-variable", "if-equation", "factored-equation") for t in g.tags)
     ctx.case({"t": text, "o": opts}, deco and len(on) >= 2, {"model": text, "options_on": on} if k < 1 else None)
